@@ -165,12 +165,19 @@ func Build(repo, simDir string) (*Result, error) {
 	}
 
 	// 4. compile
-	cmd := exec.Command("go1.26.8", "test",
-		"-modfile="+filepath.Join(scratch, "go.mod"),
-		"-overlay="+filepath.Join(scratch, "overlay.json"),
-		"-vet=off", "-count=1", "-c", "-o", res.Worker, "./cmd/aws-lambda-rie")
+	args := []string{"test",
+		"-modfile=" + filepath.Join(scratch, "go.mod"),
+		"-overlay=" + filepath.Join(scratch, "overlay.json"),
+		"-vet=off", "-count=1", "-c", "-o", res.Worker}
+	cgo := "CGO_ENABLED=0"
+	if os.Getenv("VERIF_RACE") != "" {
+		// race tier: the same worker with the race detector compiled in (needs cgo)
+		args = append(args, "-race")
+		cgo = "CGO_ENABLED=1"
+	}
+	cmd := exec.Command("go1.26.8", append(args, "./cmd/aws-lambda-rie")...)
 	cmd.Dir = repo
-	cmd.Env = append(os.Environ(), "GOFLAGS=-mod=mod", "GOPROXY=off", "GOSUMDB=off", "GOTOOLCHAIN=local", "CGO_ENABLED=0")
+	cmd.Env = append(os.Environ(), "GOFLAGS=-mod=mod", "GOPROXY=off", "GOSUMDB=off", "GOTOOLCHAIN=local", cgo)
 	var buf bytes.Buffer
 	cmd.Stdout = &buf
 	cmd.Stderr = &buf
